@@ -24,8 +24,8 @@ func init() {
 			{Name: "long-stream", Fn: scnC12("huge"), Weight: 1},
 		},
 		Rule: "byte streams of 0-40 records (record length 0..3x the internal buffer + 7, arbitrary bytes except the delimiter, optional unterminated tail) x " +
-			"partition into writes (byte at a time, many records per write, everything at once, random) x pauses in fake time x short reads x buffer-size knob {16,64,4096} x delimiter {\\n, 0x1e}; " +
-			"one run in nineteen is a long stream (150-250 records of 4-10 KB, more than a megabyte through one Ingest call, writes up to 64 KB); every record is compared inside the callback and again, as the string that was handed over, after Ingest returned; " +
+			"partition into writes (byte at a time, many records per write, everything at once, random) x pauses in fake time x short reads x buffer-size knob {16,64,4096} x delimiter {\\n, 0x1e, 0x00, 0x7f, 0x80, 0xff}; " +
+			"one run in nineteen is a long stream (150-250 records of 4-10 KB, in half of them one of 64-69 KB, more than a megabyte through one Ingest call, writes up to 64 KB); every record is compared inside the callback and again, as the string that was handed over, after Ingest returned; " +
 			"in a sixth of the end-of-stream runs a second writer opens the FIFO 20-420 ms after the last one closed (its record belongs to the next call); faults: end of stream, callback error at every record index i of the stream (enumerated within a group of runs), read error (EIO) at a random instant; " +
 			"non-trivial = at least 2 records and (a record longer than the internal buffer or a write boundary inside a record or a fault fired); distinct = distinct (stream+partition hash, schedule hash)",
 		Quick: 12000, Thorough: 400000,
@@ -76,8 +76,17 @@ func scnC12(mode string) scenarioFn {
 		t := rc.Spec
 		bufsz := []int{4096, 16, 64}[t.Choose(3, "bufio")]
 		delim := byte('\n')
-		if t.Choose(5, "delim") == 0 {
+		switch t.Choose(10, "delim") {
+		case 0, 5:
 			delim = 0x1e
+		case 6:
+			delim = 0x00
+		case 7:
+			delim = 0x80 // any byte may be the delimiter, also one that is not ASCII
+		case 8:
+			delim = 0xff
+		case 9:
+			delim = 0x7f
 		}
 		nrec := t.Choose(41, "nrec")
 		if mode == "cberr" && nrec == 0 {
@@ -98,6 +107,10 @@ func scnC12(mode string) scenarioFn {
 			switch kind := t.Choose(6, "reclen.kind"); {
 			case huge:
 				n = 4000 + t.Choose(6000, "reclen.huge")
+				if i == nrec/2 && t.Choose(2, "reclen.pipe.capacity") == 1 {
+					// one record as large as a kernel pipe's capacity (and a little more)
+					n = 65534 + t.Choose(5000, "reclen.pipe.capacity.by")
+				}
 			case kind == 0:
 				n = 0
 			case kind == 1:
